@@ -4,6 +4,9 @@ Scalar instances the model is executed at.  Core Lean only.
 * `Rat`   : exact arithmetic — the real-number semantics of the code on finite inputs.
 * `Float` : IEEE binary64 — used for outcome kinds only (NaN, ±inf, range edges).
 * `Int`   : comparisons only (`monotonic_prop` on `i32`/`i64`).
+* `Z64`   : Rust's `i64` on values far from overflow: truncating `/`, Euclidean `rem_euclid`,
+            `NumCast` to `usize` failing for negatives — Linear, Bilinear, lookup and classification
+            on integer axes and data.
 -/
 import NdInterp.Model.Basic
 
@@ -69,5 +72,31 @@ instance : Cmp Int where
   lt a b := decide (a < b)
   le a b := decide (a ≤ b)
   eq a b := decide (a = b)
+
+/-- the integers with the operations of Rust's `i64` (no overflow: the driver is fed small values) -/
+structure Z64 where
+  val : Int
+deriving BEq, Repr
+
+instance : Add Z64 := ⟨fun a b => ⟨a.val + b.val⟩⟩
+instance : Sub Z64 := ⟨fun a b => ⟨a.val - b.val⟩⟩
+instance : Mul Z64 := ⟨fun a b => ⟨a.val * b.val⟩⟩
+instance : Neg Z64 := ⟨fun a => ⟨-a.val⟩⟩
+/-- `i64` division truncates toward zero -/
+instance : Div Z64 := ⟨fun a b => ⟨Int.tdiv a.val b.val⟩⟩
+instance : NatCast Z64 := ⟨fun n => ⟨(n : Int)⟩⟩
+
+instance : Cmp Z64 where
+  lt a b := decide (a.val < b.val)
+  le a b := decide (a.val ≤ b.val)
+  eq a b := decide (a.val = b.val)
+
+/-- `num_traits::cast::<i64, usize>`: `None` for negative values -/
+instance : ToUsize Z64 where
+  toUsize? x := if x.val < 0 then none else some x.val.toNat
+
+/-- `i64::rem_euclid` -/
+instance : RemEuclid Z64 where
+  remEuclid a p := ⟨Int.emod a.val p.val⟩
 
 end NdInterp
